@@ -210,9 +210,9 @@ package node
 //@   loop 0 invariant[iters] -1 <= rangeindex && rangeindex < len(f.Iterators.Elems) && emitInv(cr) && fresh(jmpAddrs) && old(len(*cr.CS)) <= ccontAddr && ccontAddr <= len(*cr.CS)
 //@       && (rangeindex >= 0 ==> ccontAddr < len(*cr.CS))
 //@       && (forall j :: 0 <= j && j < len(jmpAddrs) ==> old(len(*cr.CS)) <= jmpAddrs[j] && jmpAddrs[j] < len(*cr.CS))
-//@   loop 1 invariant[vars] -1 <= rangeindex && rangeindex < len(f.VarRefs.Elems) && emitInv(cr) && old(len(*cr.CS)) <= ccontAddr && ccontAddr < len(*cr.CS)
+//@   loop 1 invariant[vars] -1 <= rangeindex__2 && rangeindex__2 < len(f.VarRefs.Elems) && emitInv(cr) && old(len(*cr.CS)) <= ccontAddr && ccontAddr < len(*cr.CS)
 //@       && (forall j :: 0 <= j && j < len(jmpAddrs) ==> old(len(*cr.CS)) <= jmpAddrs[j] && jmpAddrs[j] < len(*cr.CS))
-//@   loop 2 invariant[patch] -1 <= rangeindex && rangeindex < len(jmpAddrs) && emitInv(cr) && old(len(*cr.CS)) <= ccontAddr && ccontAddr < len(*cr.CS)
+//@   loop 2 invariant[patch] -1 <= rangeindex__3 && rangeindex__3 < len(jmpAddrs) && emitInv(cr) && old(len(*cr.CS)) <= ccontAddr && ccontAddr < len(*cr.CS)
 //@       && (forall j :: 0 <= j && j < len(jmpAddrs) ==> old(len(*cr.CS)) <= jmpAddrs[j] && jmpAddrs[j] < len(*cr.CS))
 //
 //@ pred whileOK(w While) bool := exprOK(w.Condition) && wfAST(w.Body) && (dyntype(w.Condition) == typeid[UnOp]() ==> exprOK(w.Condition.(UnOp).Target))
